@@ -79,6 +79,11 @@ class MedianStopper(Stopper):
         num_competing = len(competing_objectives)
 
         if num_competing < self._min_competing:
+            # Not enough competitors to take a decision: the evaluation continues
+            # but this decision budget is passed, the next one is recorded in the
+            # next rung (otherwise values observed at different budgets would be
+            # stored under, and compared within, the same rung).
+            self._rung += 1
             return False
 
         median_objective = np.median(competing_objectives)
